@@ -1,4 +1,5 @@
 import HdModel.Spec.Sni
+import HdModel.Props.TlsInfoSem
 import HdModel.Model.TlsInfo
 /-! # C20 — SNI validation forwards a request only if its host is the TLS server name
 
